@@ -1103,7 +1103,8 @@ caption_command(vbi_decoder *vbi, struct caption *cc,
 
 			render(ch->pg + (ch->hidden ^ 1), -1 /* ! */);
 
-			erase_memory(cc, ch, ch->hidden); // yes?
+			/* 47 CFR 15.119 (f)(2): EOC swaps displayed and
+			   non-displayed memory, it does not erase. */
 
 			/*
 			 *  A Preamble Address Code should follow,
